@@ -1,6 +1,306 @@
-//! `vh varmodel`: see /verif/docs/MODULE_CONTRACT.md
+//! `vh varmodel [file]`: replay VarModel.tla cases (C07) against the real fontdrasil variation model.
+//!
+//! Input: ndjson (stdin or a file), one case per line as emitted by spec/VarModel.tla (`Emit`):
+//!   n (axis count), den, locs (integer numerators, in the order to supply them), vals (per location one
+//!   value per column, integer or [num, den]), defs (lists of 1-based input positions that define values).
+//!   The spec's expectations in the same record are ignored here.
+//! Output: one JSON line per case with what the public API returned, per variant
+//!   A  tags ascending in axis order, locations inserted as given, complete locations
+//!   B  same tags, locations inserted in another (seeded) order, zero coordinates omitted (sparse)
+//!   C  tags *descending* in axis order (tag order != axis order), another insertion order
+//! for each: outcome, model order, and per (definition, rounding) run the returned regions and deltas,
+//! interpolate_from_deltas at every defined master and at the default, the scalar of every region at
+//! every master, and (variant A) min/max of VariationRegion::scalar_at over a lattice of [-1,1]^n.
+//! Nothing is judged here; a panic is data.
 
-pub fn run(_args: &[String]) -> i32 {
-    eprintln!("vh varmodel: not implemented yet");
-    2
+use std::{
+    collections::{HashMap, HashSet},
+    io::{BufRead, Write},
+    panic::{AssertUnwindSafe, catch_unwind},
+};
+
+use fontdrasil::{
+    coords::{NormalizedCoord, NormalizedLocation},
+    types::Tag,
+    variations::{RoundingBehaviour, VariationModel, VariationRegion},
+};
+use serde_json::{Value, json};
+
+fn num(v: &Value) -> f64 {
+    match v {
+        Value::Array(a) if a.len() == 2 => a[0].as_f64().unwrap_or(f64::NAN) / a[1].as_f64().unwrap_or(f64::NAN),
+        _ => v.as_f64().unwrap_or(f64::NAN),
+    }
+}
+
+fn fl(x: f64) -> Value {
+    if x.is_finite() {
+        // -0.0 and 0.0 are the same number
+        json!(if x == 0.0 { 0.0 } else { x })
+    } else {
+        json!(format!("{x}"))
+    }
+}
+
+fn fls(xs: &[f64]) -> Value {
+    Value::Array(xs.iter().map(|x| fl(*x)).collect())
+}
+
+struct Case {
+    n: usize,
+    /// locations in input order, coordinates by axis position
+    locs: Vec<Vec<f64>>,
+    /// per location the column values
+    vals: Vec<Vec<f64>>,
+    /// 0-based input positions
+    defs: Vec<Vec<usize>>,
+}
+
+fn parse_case(v: &Value) -> Result<Case, String> {
+    let n = v["n"].as_u64().ok_or("n")? as usize;
+    let den = v["den"].as_f64().ok_or("den")?;
+    let locs: Vec<Vec<f64>> = v["locs"]
+        .as_array()
+        .ok_or("locs")?
+        .iter()
+        .map(|l| l.as_array().map(|c| c.iter().map(|x| num(x) / den).collect()).unwrap_or_default())
+        .collect();
+    let vals: Vec<Vec<f64>> = v["vals"]
+        .as_array()
+        .ok_or("vals")?
+        .iter()
+        .map(|l| l.as_array().map(|c| c.iter().map(num).collect()).unwrap_or_default())
+        .collect();
+    let defs: Vec<Vec<usize>> = v["defs"]
+        .as_array()
+        .ok_or("defs")?
+        .iter()
+        .map(|l| l.as_array().map(|c| c.iter().map(|x| x.as_u64().unwrap_or(1) as usize - 1).collect()).unwrap_or_default())
+        .collect();
+    if locs.iter().any(|l| l.len() != n) || vals.len() != locs.len() {
+        return Err("shape".into());
+    }
+    Ok(Case { n, locs, vals, defs })
+}
+
+struct Variant {
+    name: &'static str,
+    tags: Vec<Tag>,
+    /// insertion order (input positions)
+    order: Vec<usize>,
+    sparse: bool,
+    lattice: bool,
+}
+
+fn lcg(state: &mut u64) -> u64 {
+    *state = state.wrapping_mul(6364136223846793005).wrapping_add(1442695040888963407);
+    *state >> 33
+}
+
+fn shuffled(m: usize, seed: u64) -> Vec<usize> {
+    let mut s = seed;
+    let mut v: Vec<usize> = (0..m).collect();
+    for i in (1..m).rev() {
+        let j = (lcg(&mut s) % (i as u64 + 1)) as usize;
+        v.swap(i, j);
+    }
+    v
+}
+
+fn loc_of(tags: &[Tag], coords: &[f64], sparse: bool) -> NormalizedLocation {
+    tags.iter()
+        .zip(coords)
+        .filter(|(_, c)| !(sparse && **c == 0.0))
+        .map(|(t, c)| (*t, NormalizedCoord::new(*c)))
+        .collect()
+}
+
+fn lattice_steps(n: usize) -> i32 {
+    // points per axis = 2 * steps + 1
+    match n {
+        1 => 16,
+        2 => 8,
+        3 => 4,
+        _ => 2,
+    }
+}
+
+fn region_json(tags: &[Tag], region: &VariationRegion) -> Value {
+    Value::Array(
+        tags.iter()
+            .map(|t| match region.get(t) {
+                Some(tent) => json!([fl(tent.min.to_f64()), fl(tent.peak.to_f64()), fl(tent.max.to_f64())]),
+                None => Value::Null,
+            })
+            .collect(),
+    )
+}
+
+fn run_variant(case: &Case, var: &Variant) -> Value {
+    let m = case.locs.len();
+    let dense: Vec<NormalizedLocation> = case.locs.iter().map(|c| loc_of(&var.tags, c, false)).collect();
+    let supplied: Vec<NormalizedLocation> = case.locs.iter().map(|c| loc_of(&var.tags, c, var.sparse)).collect();
+
+    let mut set = HashSet::new();
+    for k in &var.order {
+        set.insert(supplied[*k].clone());
+    }
+    let model = VariationModel::new(set, var.tags.clone());
+
+    // model order as input positions
+    let order: Vec<Value> = model
+        .locations()
+        .map(|l| match dense.iter().position(|d| d == l) {
+            Some(p) => json!(p + 1),
+            None => json!(format!("{l:?}")),
+        })
+        .collect();
+    let default_loc = loc_of(&var.tags, &vec![0.0; case.n], false);
+
+    let mut runs = Vec::new();
+    let mut full_regions: Option<Vec<VariationRegion>> = None;
+    for (d, def) in case.defs.iter().enumerate() {
+        for (rnd, rounding) in [(0, RoundingBehaviour::None), (1, RoundingBehaviour::RoundTiesEven)] {
+            let mut seqs: HashMap<NormalizedLocation, Vec<f64>> = HashMap::new();
+            // insert in the variant's order
+            for k in var.order.iter().filter(|k| def.contains(k)) {
+                seqs.insert(supplied[*k].clone(), case.vals[*k].clone());
+            }
+            // `deltas` is the RoundTiesEven flavour; use it so that both public entry points are exercised
+            let res = if rnd == 1 {
+                model.deltas::<f64, f64>(&seqs)
+            } else {
+                model.deltas_with_rounding::<f64, f64>(&seqs, rounding)
+            };
+            let deltas = match res {
+                Ok(d) => d,
+                Err(e) => {
+                    runs.push(json!({"d": d + 1, "rnd": rnd, "outcome": "error", "message": format!("{e}")}));
+                    continue;
+                }
+            };
+            if d == 0 && rnd == 0 && deltas.len() == m {
+                full_regions = Some(deltas.iter().map(|(r, _)| r.clone()).collect());
+            }
+            let regions: Vec<Value> = deltas.iter().map(|(r, _)| region_json(&var.tags, r)).collect();
+            let dvals: Vec<Value> = deltas.iter().map(|(_, v)| fls(v)).collect();
+            // interpolate at every defined master (input positions, ascending) and at the default
+            let mut at = Vec::new();
+            let mut positions: Vec<usize> = def.clone();
+            positions.sort();
+            for k in &positions {
+                let got: Vec<f64> = model.interpolate_from_deltas(&dense[*k], &deltas);
+                at.push(json!([k + 1, fls(&got)]));
+            }
+            let at0: Vec<f64> = model.interpolate_from_deltas(&default_loc, &deltas);
+            runs.push(json!({"d": d + 1, "rnd": rnd, "outcome": "ok", "regions": regions, "deltas": dvals,
+                             "interp": at, "interp0": fls(&at0)}));
+        }
+    }
+
+    let mut out = json!({"name": var.name, "outcome": "ok", "order": order, "runs": runs,
+                         "supports_all": supplied.iter().all(|l| { let mut l = l.clone(); l.fit_to_axes(&var.tags); model.supports(&l) }),
+                         "num_locations": model.num_locations()});
+    if let Some(regions) = full_regions {
+        // sm[j][i]: region of the j-th master (model order) at the i-th master's location (model order)
+        let model_locs: Vec<&NormalizedLocation> = model.locations().collect();
+        let sm: Vec<Value> = regions
+            .iter()
+            .map(|r| Value::Array(model_locs.iter().map(|l| fl(r.scalar_at(l).into_inner())).collect()))
+            .collect();
+        out["sm"] = Value::Array(sm);
+        out["default_region_first"] = json!(regions.first().map(|r| r.is_default()).unwrap_or(false));
+        if var.lattice {
+            let steps = lattice_steps(case.n);
+            let per = (2 * steps + 1) as usize;
+            let total = per.pow(case.n as u32);
+            let (mut lo, mut hi, mut bad) = (f64::INFINITY, f64::NEG_INFINITY, 0usize);
+            let mut coords = vec![0.0; case.n];
+            for idx in 0..total {
+                let mut rest = idx;
+                for c in coords.iter_mut() {
+                    *c = ((rest % per) as i32 - steps) as f64 / steps as f64;
+                    rest /= per;
+                }
+                let l = loc_of(&var.tags, &coords, false);
+                for r in &regions {
+                    let s = r.scalar_at(&l).into_inner();
+                    if s.is_nan() {
+                        bad += 1;
+                    } else {
+                        lo = lo.min(s);
+                        hi = hi.max(s);
+                    }
+                }
+            }
+            out["lattice"] = json!({"points": total, "evaluations": total * regions.len(), "min": fl(lo), "max": fl(hi), "nan": bad});
+        }
+    }
+    out
+}
+
+fn run_case(line: &str) -> Value {
+    let v: Value = match serde_json::from_str(line) {
+        Ok(v) => v,
+        Err(e) => return json!({"outcome": "bad-request", "message": format!("{e}")}),
+    };
+    let case = match parse_case(&v) {
+        Ok(c) => c,
+        Err(e) => return json!({"outcome": "bad-request", "message": e}),
+    };
+    let m = case.locs.len();
+    let seed = v["seed"].as_u64().unwrap_or(1)
+        ^ case.locs.iter().flatten().fold(0xcbf29ce484222325u64, |h, c| (h ^ c.to_bits()).wrapping_mul(0x100000001b3));
+    let asc: Vec<Tag> = (0..case.n).map(|a| Tag::new(&[b'a', b'x', b'0', b'1' + a as u8])).collect();
+    let desc: Vec<Tag> = (0..case.n).map(|a| Tag::new(&[b'Z', b'z', b'0', b'9' - a as u8])).collect();
+    let variants = [
+        Variant { name: "A", tags: asc.clone(), order: (0..m).collect(), sparse: false, lattice: true },
+        Variant { name: "B", tags: asc, order: shuffled(m, seed), sparse: true, lattice: false },
+        Variant { name: "C", tags: desc, order: shuffled(m, seed ^ 0x9e3779b97f4a7c15), sparse: false, lattice: false },
+    ];
+    let mut outs = Vec::new();
+    for var in &variants {
+        let res = catch_unwind(AssertUnwindSafe(|| run_variant(&case, var)));
+        outs.push(match res {
+            Ok(v) => v,
+            Err(p) => {
+                let msg = p
+                    .downcast_ref::<String>()
+                    .cloned()
+                    .or_else(|| p.downcast_ref::<&str>().map(|s| s.to_string()))
+                    .unwrap_or_else(|| "panic".into());
+                json!({"name": var.name, "outcome": "panic", "message": msg})
+            }
+        });
+    }
+    json!({"outcome": "ok", "variants": outs})
+}
+
+pub fn run(args: &[String]) -> i32 {
+    // keep panics of the code under test quiet; they are reported as data
+    std::panic::set_hook(Box::new(|_| {}));
+    let input: Box<dyn BufRead> = match args.first() {
+        Some(path) => match std::fs::File::open(path) {
+            Ok(f) => Box::new(std::io::BufReader::new(f)),
+            Err(e) => {
+                eprintln!("vh varmodel: cannot open {path}: {e}");
+                return 2;
+            }
+        },
+        None => Box::new(std::io::BufReader::new(std::io::stdin())),
+    };
+    let stdout = std::io::stdout();
+    let mut out = std::io::BufWriter::new(stdout.lock());
+    for line in input.lines() {
+        let Ok(line) = line else { break };
+        if line.trim().is_empty() {
+            continue;
+        }
+        let res = run_case(&line);
+        if writeln!(out, "{res}").is_err() {
+            return 2;
+        }
+    }
+    let _ = out.flush();
+    0
 }
